@@ -164,12 +164,20 @@ theorem rename_tree_commutes (S : List Nat) (new : α) (n : Node α) :
     visit (Node.renameAt S new n) = renameAt S new (visit n) :=
   visit_renameAt S new n
 
+/-- …and at member level, parameters included (`mod_def_id` on `AnnotatedId`s,
+`variable_definition.rs:400-450`): type parameters, parameter annotations, return type, parameters,
+body. -/
+theorem rename_member_commutes (S : List Nat) (new : α) (m : Member α) :
+    visitMember (Member.renameAt S new m) = renameAt S new (visitMember m) :=
+  visitMember_renameAt S new m
+
 /-- **`rename_preserves_resolution`** (general; no "bound once" condition): let the module be
 accepted by scope analysis, `new` fresh, and `S` = the binding `d` plus exactly the occurrences
 that resolve to it (`Admissible`, a decidable predicate evaluated along the original run; other
 bindings may carry the same old name).  Then the renamed module has the same use→definition map,
 the same definition set and reference lists, no new diagnostics, and the same per-scope binding
-tables up to the new name — no capture, no escape. -/
+tables and lambda-capture tables up to the new name (`rnE`: the entry of `d` carries `new`) — no
+capture, no escape. -/
 theorem rename_preserves_resolution (S : List Nat) (d : Nat) (old new : α) (evs : List (Ev α))
     (h : Admissible S d old new evs init) :
     (run (renameAt S new evs) init).useDef = (run evs (init : St α)).useDef ∧
@@ -178,10 +186,12 @@ theorem rename_preserves_resolution (S : List Nat) (d : Nat) (old new : α) (evs
     (run (renameAt S new evs) init).errors = (run evs (init : St α)).errors ∧
     (run (renameAt S new evs) init).unbound = (run evs (init : St α)).unbound ∧
     (run (renameAt S new evs) init).scopedDefs =
-      (run evs (init : St α)).scopedDefs.map (fun e => (e.1, List.map (rnE d new) e.2)) := by
+      (run evs (init : St α)).scopedDefs.map (fun e => (e.1, List.map (rnE d new) e.2)) ∧
+    (run (renameAt S new evs) init).lambdaCaps =
+      (run evs (init : St α)).lambdaCaps.map (fun e => (e.1, List.map (rnE d new) e.2)) := by
   have hr := run_sim S d old new evs init init (rinv_init d old new) (rel_init d new) h
   exact ⟨hr.useDef, hr.invalid, by simp [defToUse, hr.useDef, hr.defLocs], hr.errors, hr.unbound,
-    hr.scopedDefs⟩
+    hr.scopedDefs, hr.lambdaCaps⟩
 
 /-- non-vacuity: two sibling bindings with the same name `1`; renaming the first (location 10, use
 11) to `7` is admissible although the name is bound twice. -/
@@ -225,8 +235,8 @@ theorem renameAt_eq_map_swap (S : List Nat) (old new : α) (evs : List (Ev α))
     · have h2 : n ≠ old := fun e => hl (h1.mpr e)
       simp [renameEv, hl, Ev.map, swap, h2, hf]
 
-/-- **`rename_preserves_resolution_partial`** (kept: it also covers ill-scoped modules and the
-lambda-capture tables, which the general theorem does not): if the new name is fresh and the
+/-- **`rename_preserves_resolution_partial`** (kept: it also covers ill-scoped modules, which the
+general theorem does not): if the new name is fresh and the
 renamed occurrences are *all* occurrences of the old name, everything — including captures and
 diagnostics of rejected modules — is preserved up to the renaming. -/
 theorem rename_preserves_resolution_partial (S : List Nat) (old new : α) (evs : List (Ev α))
